@@ -58,26 +58,7 @@ def make_chunks(seed, k, n):
         rng = random.Random(f'{seed}:c13twin:{k}')
         rows0, prms0 = out[0]
         for j in range(1, n):
-            import copy
-            pj = copy.deepcopy(prms0)
-            for _ in range(rng.choice([1, 2, 3])):
-                what = rng.choice(['lowess_frac', 'lowess_it', 'gain', 'rescale', 'perc', 'pad', 'minrange', 'okta0'])
-                if what == 'lowess_frac':
-                    pj['LOWESS'] = dict(pj.get('LOWESS', {}), frac=[0.9, 0.15, 0.5][j % 3])
-                elif what == 'lowess_it':
-                    pj['LOWESS'] = dict(pj.get('LOWESS', {}), it=[1, 5, 2][j % 3])
-                elif what == 'gain':
-                    pj['LAYERING_PRMS']['gmm_kwargs']['delta_mul_gain'] = [0.6, 1.0, 0.8][j % 3]
-                elif what == 'rescale':
-                    pj['LAYERING_PRMS']['gmm_kwargs']['rescale_0_to_x'] = [10, None, 1000][j % 3]
-                elif what == 'perc':
-                    pj['BASE_LVL_HEIGHT_PERC'] = [50, 95, 0][j % 3]
-                elif what == 'pad':
-                    pj['GROUPING_PRMS'] = dict(pj.get('GROUPING_PRMS', {}), height_pad_perc=[40, 5, 100][j % 3])
-                elif what == 'minrange':
-                    pj['SLICING_PRMS']['height_scale_kwargs'] = {'min_range': [300, 8000, 50][j % 3]}
-                else:
-                    pj['MAX_HITS_OKTA0'] = [0, 5, 1][j % 3]
+            pj = pipecheck.twin_prms(rng, prms0, j)
             out[j] = (list(rows0), pj)
     return out
 
